@@ -135,6 +135,9 @@ func i1Build(r *rng, dns bool) *i1Scenario {
 	if r.chance(1, 5) {
 		nLines = 1 + r.n(45)
 	}
+	if r.chance(1, 30) {
+		nLines = nLog(r, 46, 130) // MANY lines (the driver parses every line of every op: kept rare)
+	}
 	ids := append([]int{}, i1ListIDs...)
 	shuffle(r, ids)
 	names := subset(r, poolDomains, 5)
@@ -296,7 +299,7 @@ func (sc *i1Scenario) oracles(extraAddrs ...string) (addrs, prefixes, rewrites, 
 func (sc *i1Scenario) pats(q *rules.Request) string {
 	var pats []string
 	for _, f := range sc.nets {
-		if p := wpat(f, q.URL, q.Hostname); p != "" {
+		if p := wpat(f, q.URL, q.Hostname); p != "" && !nSeenPat(&pats, p) {
 			pats = append(pats, p)
 		}
 	}
@@ -314,7 +317,7 @@ func i1GenChain(r *rng, n int, w *bufio.Writer) {
 		engine := urlfilter.NewNetworkEngine(sc.storage)
 		c01 := &c01Scenario{storage: sc.storage, engine: engine, nets: sc.nets, texts: sc.texts}
 		ls := sc.wlists()
-		for j := 0; j < 5 && i < n; j, i = j+1, i+1 {
+		for j := 0; j < nOpsFor(sc, 5) && i < n; j, i = j+1, i+1 {
 			q := c01Request(r, c01)
 			ans := guardStr(func() string { return bSortedTextSet(texts(engine.MatchAll(q))) })
 			addrs, prefixes, rewrites, shortcuts := sc.oracles(q.Hostname)
@@ -341,7 +344,7 @@ func i1GenDNSChain(r *rng, n int, w *bufio.Writer) {
 				}
 			}
 		}
-		for j := 0; j < 5 && i < n; j, i = j+1, i+1 {
+		for j := 0; j < nOpsFor(sc, 5) && i < n; j, i = j+1, i+1 {
 			d := genDNSRequest(r, sc.all)
 			switch r.n(8) {
 			case 0, 1, 2, 3:
